@@ -186,7 +186,8 @@ def run(chk):
     chk.assumptions += ['the per-instruction cycle breakdown has no second machine-readable source: it is tied between the Python and C copies '
                         '(per-slot differential at all phases) and bounded by theorem (never fewer T-states; none outside the window; none when uncontended) '
                         'but not proved against documentation',
-                        'BIT n,(HL), HALT and LD A,I/R are excluded from only_adds_delay_partial (see Props/C19.lean) and covered by the e2e oracle']
+                        'per-instruction theorem covers every closure: BIT n,(HL) with F bits 5/3 uncompared (they come from MEMPTR), HALT and LD A,I/R under the frame layout CfgOk '
+                        '(proved for both machine configurations); the multi-step theorem excludes runs that execute those three closures (their effect depends on T/MEMPTR): e2e oracle only']
     cmio, pagingtracer, simutils = fresh_import('skoolkit.cmiosimulator', 'skoolkit.pagingtracer', 'skoolkit.simutils')
     gen_ok = simgen.regen(chk)
     ok = chk.lake_build([PROPS, 'SkoolVerif.Prelude.SimProto', 'SkoolVerif.Gen.CmioHandlers', 'SkoolVerif.Model.Contend']) if gen_ok else False
